@@ -520,7 +520,9 @@ pub fn matches(input_string_value: &Value, pattern_string_value: &Value, flags_s
   if let Value::String(input_string) = input_string_value {
     if let Value::String(pattern_string) = pattern_string_value {
       if let Value::String(flags_string) = flags_string_value {
-        if let Ok(re) = Regex::new(format!("(?{}){}", flags_string, pattern_string).as_str()) {
+        // an empty flags string is the same as no flags (`(?)` is not a valid group)
+        let pattern = if flags_string.is_empty() { pattern_string.clone() } else { format!("(?{}){}", flags_string, pattern_string) };
+        if let Ok(re) = Regex::new(pattern.as_str()) {
           return Value::Boolean(re.is_match(input_string));
         }
       } else if let Ok(re) = Regex::new(pattern_string) {
